@@ -66,7 +66,7 @@ class UartSpec(Spec):
         else:
             vals = word_alphabet(self.bw)
         self._acts = [(0, 0)] + [(1, v) for v in vals] + [(0, vals[-1])]
-        self.time_budget = 150 if tier == "quick" else 850      # safety net only; sized to finish in seconds
+        self.time_budget = 600 if tier == "quick" else 3000     # safety net only; sized to finish in seconds
         self.max_states = 400_000 if tier == "quick" else 3_000_000
         if tier == "quick" and cfg.get("alphabet") == "all":
             self.max_states = 8_000       # 2819 on a correct design; 258 actions per state, so keep broken designs from running long
